@@ -1,12 +1,13 @@
 from vdriver import U
 
 PROPERTY = {
-    "level": "other",
-    "explanation": "intrusive list / singly linked list primitives and every queue operation executed on symbolic small structures (rings of <= 3 nodes per list, every position and aliasing pattern; queues of <= 3 elements with a symbolic recycle pool) and compared with abstract sequences; forward walk, backward links and tail designation checked after every operation; allocator model may fail at every request",
+    "level": "proof",
+    "explanation": "UNBOUNDED (counted): every a_list primitive on an arbitrary heap - a_list_add_/a_list_del_ against DFCC function contracts with assigns frame, the other families against those contracts (replace), swap over the bodies; edges created/removed exactly as specified, all other link fields unchanged. BOUNDED (not counted): intrusive list / singly linked list primitives and every queue operation executed on symbolic small structures (rings of <= 3 nodes per list, every position and aliasing pattern; queues of <= 3 elements with a symbolic recycle pool) and compared with abstract sequences; forward walk, backward links and tail designation checked after every operation; allocator model may fail at every request",
     "trusted_base": ["cbmc 6.11.0 (SAT back end)", "allocator model verif_alloc"],
     "assumptions": [
         "induction over the operation history is a paper step (every operation is verified from an arbitrary well-formed structure of the bounded size)",
-        "list primitives are loop-free and only reach the named nodes and their neighbours: rings longer than the bound differ only in nodes outside that window (frame argument, on paper)",
+        "list lemmas: a heap of any size is represented by a pool of 10 node objects with arbitrary links (operands + all nodes within two links + spares); the step from 'exactly these consistent edges change' to the abstract ring sequence is on paper and cross-checked by the bounded ring units",
+        "goto-instrument 6.11 makes two replaced calls of one contract on the same path contradictory (caught by the vacuity guard): a_list_swap_ is therefore verified over the bodies of a_list_add_/a_list_link instead of the contract",
         "documented preconditions: swapped nodes/sections are disjoint and not adjacent; a moved list is non-empty; sorted-insert variants are applied to a sorted queue",
         "queue: ring length <= 3 and recycle pool <= 2 nodes before the operation, element size 4 (bounded stand-in)",
     ],
@@ -25,6 +26,21 @@ UNITS = [
     L("slist", ["a_slist_add", "a_slist_add_head", "a_slist_add_tail", "a_slist_del", "a_slist_del_head", "a_slist_mov", "a_slist_rot"]),
     L("slist_ctor", ["a_slist_ctor", "a_slist_dtor", "a_slist_add_tail"]),
     ]
+# unbounded lemmas: arbitrary heap (pool of 10 nodes with arbitrary links), core primitives under DFCC contracts, callers against the contracts
+CORE = ["a_list_add_/contract_a_list_add_", "a_list_del_/contract_a_list_del_"]
+def W(name, fns, **kw):
+    return U("list_lemma_" + name, "list_lemma.c", "h_" + name, level="L", functions=fns, replay=RP, min_obl=3, unwind=12, timeout=300, **kw)
+UNITS += [
+    W("core_add", ["a_list_add_", "a_list_link"], enforce=[CORE[0]], key=["only tail1->next"]),
+    W("core_del", ["a_list_del_", "a_list_link"], enforce=[CORE[1]], key=["become a consistent edge"]),
+    W("add", ["a_list_add_node", "a_list_add_next", "a_list_add_prev"], replace=CORE, key=["add_node: the node sits"]),
+    W("del", ["a_list_del_node", "a_list_del_next", "a_list_del_prev"], replace=CORE, key=["del_node: predecessor"]),
+    W("set", ["a_list_set_", "a_list_set_node"], replace=CORE, key=["set: the replacement"]),
+    W("mov", ["a_list_mov_next", "a_list_mov_prev"], replace=CORE, key=["mov_next: the other"]),
+    W("rot", ["a_list_rot_next", "a_list_rot_prev"], replace=CORE, key=["rot_next: the node"]),
+    # two replaced calls of the same contract on one path come out contradictory with this goto-instrument (canary unreachable): swap is proved over the bodies
+    W("swap", ["a_list_swap_", "a_list_swap_node", "a_list_add_", "a_list_link"], key=["swap: each section"]),
+]
 def Q(name, fns, **kw):
     kw.setdefault("unwindset", [("verif_alloc.0", 34), ("a_que_drop.0", 5), ("a_que_drop.1", 7), ("a_que_setz.0", 7), ("a_que_dtor.0", 7), ("a_que_dtor.1", 5), ("a_que_dtor.2", 7), ("a_que_dtor.3", 5)])
     kw.setdefault("bound", "queues of <= 3 elements, recycle pool capacity 0 or 8 with <= 2 pooled nodes, element size 4")
